@@ -17,7 +17,7 @@ func init() {
 			"R2.1 the relative order and ties of all binding powers equal those of the ECMAScript operator-precedence table (a frozen 11-tier reference; only orderings are compared, so renumbering is not an alarm), and the unary operand level lies strictly between multiplicative and postfix; " +
 			"R2.2 associativity: the climbing loop continues only on a STRICT 'requested < peek' comparison; every left-associative infix method reads its own token's level before advancing and parses its right operand exactly at that level; assignment operators parse their right side below their own level (right-associative); delimited operands are exempt; " +
 			"R2.3 every keyword of the lexer's table has a consumer in the parser (dispatch case, prefix entry, or an explicit token test) and every token the parser tests for can be produced by the lexer; " +
-			"R2.4 statement boundaries: (a) accept paths of the separator check (= R12.2); (b) restricted productions — no return value is parsed when the next token follows a line break, and the climbing loop does not apply a postfix operator that follows a line break; (c) the climbing loop has no other statement cut than these and the smart-semicolon cut. " +
+			"R2.4 statement boundaries: (a) accept paths of the separator check (= R12.2); (b) restricted productions — no return value is parsed when the next token follows a line break or is ';', '}' or the end of the input, and the climbing loop does not apply a postfix operator that follows a line break; (c) the climbing loop has no other statement cut than these and the smart-semicolon cut. " +
 			"Not decided: that every subset program is accepted and gets the ECMAScript tree (needs the grammar and a run).",
 		notDecided: []string{"acceptance of every subset program / full grammar conformance", "ASI cases that depend on 'offending token not allowed by the grammar'", "CR, LS, PS as line terminators", "numeric literal acceptance (strconv vs ECMAScript)"},
 	})
@@ -46,7 +46,7 @@ func runC02(c *Ctx) {
 	c.rule("R2.4a", "accept paths of the separator check (= R12.2)")
 	c.floor(4)
 	ruleSeparatorAccepts(c, a)
-	c.rule("R2.4b", "restricted productions: no return value after a line break; no postfix operator applied after a line break")
+	c.rule("R2.4b", "restricted productions: no return value after a line break, and none in front of ';', '}' or the end of the input; no postfix operator applied after a line break")
 	c.floor(3)
 	ruleRestrictedProductions(c, t, a)
 }
@@ -548,6 +548,49 @@ func ruleRestrictedProductions(c *Ctx, t *tables, a *parserAnchors) {
 			guarded = complete && okAll && n > 0
 		}
 		c.check(guarded, fnName(f)+": no value after a line break", src.Pos(), "the value is parsed only when the next token is on the same line", "`return` followed by a line break still parses the next line as its value: ECMAScript's restricted production ends the statement at the line break (return⏎x is `return; x`)")
+		// … and only when the next token can start an expression at all: `return }`, `return;` and a `return` at the end
+		// of the input have no value (the statement ends there); parsing one reports an error for a valid program
+		tcR := c.tokenConsts()
+		for _, name := range []string{"SEMICOLON", "RBRACE", "EOF"} {
+			k, okK := tcR.byName[name]
+			if !okK {
+				continue
+			}
+			okAll, n := true, 0
+			complete := a.enumPaths(f.Blocks[0], func(facts []pathFact, blocks []*ssa.BasicBlock, last *ssa.BasicBlock) {
+				at := -1
+				firstAdv := len(blocks)
+				for i, b := range blocks {
+					if b == src.Block() && at < 0 {
+						at = i
+					}
+					for _, call := range callsIn(b) {
+						if call.Call.StaticCallee() == a.nextTok && i < firstAdv {
+							firstAdv = i
+						}
+					}
+				}
+				if at < 0 {
+					return
+				}
+				n++
+				found := false
+				for _, pf := range facts {
+					if pf.at.kind != atPeekType || !pf.at.neg || pf.at.k != k {
+						continue
+					}
+					for i, b := range blocks {
+						if b == pf.from && i <= firstAdv && i <= at {
+							found = true
+						}
+					}
+				}
+				if !found {
+					okAll = false
+				}
+			})
+			c.check(complete && okAll && n > 0, fnName(f)+": no value in front of "+name, src.Pos(), "the value is parsed only when the next token is not "+name, "`return` directly followed by "+name+" still tries to parse a value: a value-less return in front of it (`function f() { return }`, `return;`, the last statement of the input) is reported as an error although it is valid")
+		}
 	}
 	if !found {
 		c.unres("return statement parser", token.NoPos, "no function allocating ast.ReturnStatement")
